@@ -274,6 +274,13 @@ func (p *Payload) extractCriticalFieldsFromBytes(data []byte, traceIdFieldNames,
 
 	var keysFound int
 
+	// The trace ID is meta.trace_id if the payload carries a non-empty one,
+	// otherwise the value of the first configured trace ID field (in configured
+	// order, not payload order) that holds a non-empty string. Candidates from
+	// the configured fields are kept aside until the whole map has been read.
+	priorTraceID := p.MetaTraceID
+	fieldTraceID, fieldTraceIdx := "", len(traceIdFieldNames)
+
 	// Read the map header
 	mapSize, remaining, err := msgp.ReadMapHeaderBytes(data)
 	if err != nil {
@@ -324,9 +331,14 @@ func (p *Payload) extractCriticalFieldsFromBytes(data []byte, traceIdFieldNames,
 
 		// Handle special trace ID and parent ID fields
 		if !handled && valueType == msgp.StrType {
-			_, ok := sliceContains(traceIdFieldNames, keyBytes)
-			if p.MetaTraceID == "" && ok {
-				p.MetaTraceID, remaining, err = msgp.ReadStringBytes(remaining)
+			idx, ok := sliceContains(traceIdFieldNames, keyBytes)
+			if ok && idx < fieldTraceIdx {
+				// better ranked than any candidate seen so far
+				var traceID string
+				traceID, remaining, err = msgp.ReadStringBytes(remaining)
+				if err == nil && traceID != "" {
+					fieldTraceID, fieldTraceIdx = traceID, idx
+				}
 				handled = true
 			} else if _, ok := sliceContains(parentIdFieldNames, keyBytes); ok {
 				var parentId string
@@ -369,6 +381,15 @@ func (p *Payload) extractCriticalFieldsFromBytes(data []byte, traceIdFieldNames,
 				return len(data) - len(remaining), fmt.Errorf("failed to skip value: %w", err)
 			}
 		}
+	}
+
+	// An empty meta.trace_id counts as absent: it must not erase a trace ID that
+	// is already known or hide the configured trace ID fields.
+	if p.MetaTraceID == "" {
+		p.MetaTraceID = priorTraceID
+	}
+	if p.MetaTraceID == "" {
+		p.MetaTraceID = fieldTraceID
 	}
 
 	if keysFound < len(samplingKeyFields) {
@@ -416,6 +437,10 @@ func (p *Payload) ExtractMetadata() error {
 			// Try metadata fields first
 			handled := false
 			if field, ok := metadataFields[key]; ok {
+				if s, isStr := value.(string); key == MetaTraceID && isStr && s == "" {
+					// an empty meta.trace_id counts as absent
+					continue
+				}
 				if field.expectedType == FieldTypeInt64 {
 					switch t := value.(type) {
 					case float64:
@@ -432,18 +457,21 @@ func (p *Payload) ExtractMetadata() error {
 				handled = true
 			}
 
-			// If not handled as metadata, check for trace/parent ID fields
-			if !handled {
-				// Check if this is a trace ID field
-				if p.MetaTraceID == "" && slices.Contains(traceIdFieldNames, key) {
-					if v, ok := value.(string); ok && v != "" {
-						p.MetaTraceID = v
-					}
-				} else if slices.Contains(parentIdFieldNames, key) {
-					// Check if this is a parent ID field
-					if v, ok := value.(string); ok && v != "" {
-						p.MetaRefineryRoot.Set(false)
-					}
+			// If not handled as metadata, check for parent ID fields
+			if !handled && slices.Contains(parentIdFieldNames, key) {
+				if v, ok := value.(string); ok && v != "" {
+					p.MetaRefineryRoot.Set(false)
+				}
+			}
+		}
+
+		// Map iteration order is random, so the trace ID fields are looked up in
+		// configured order once the metadata fields (meta.trace_id wins) are known.
+		if p.MetaTraceID == "" {
+			for _, name := range traceIdFieldNames {
+				if v, ok := p.memoizedFields[name].(string); ok && v != "" {
+					p.MetaTraceID = v
+					break
 				}
 			}
 		}
